@@ -42,6 +42,7 @@ def builtin_hook(f):
 
 def load_all():
     from . import models_h2  # noqa: F401
+    from . import models_ws  # noqa: F401
 
 
 load_all()
